@@ -502,7 +502,23 @@ func TestDeepAndLongRuns(t *testing.T) {
 			n++
 		}
 	}
-	evid.Exhaustive("blocks nested 2..40 deep; loops of 255..70000 passes in 4 forms", n)
+	// more than a million passes of one loop (a short body: the count is what matters), v1; C18 runs the same on v2
+	for _, passes := range []int64{1048575, 1048577, 1300000} {
+		for form := 0; form < 2; form++ {
+			var prog []*gen.Node
+			if form == 0 {
+				prog = []*gen.Node{gen.NSet("acc", gen.NInt(0)), gen.NFor(gen.NSet("i", gen.NInt(0)), gen.NBin("<", id("i"), gen.NInt(passes)), inc("i"), []*gen.Node{inc("acc")}), gen.NCall("probe", gen.NStr("end"), id("acc"))}
+			} else {
+				prog = []*gen.Node{gen.NSet("acc", gen.NInt(0)), gen.NFor(nil, nil, nil, []*gen.Node{inc("acc"), gen.NIf([]*gen.Node{gen.NBin(">=", id("acc"), gen.NInt(passes))}, [][]*gen.Node{{gen.NBreak()}}, nil, false)}), gen.NCall("probe", gen.NStr("end"), id("acc"))}
+			}
+			c := sem.NewCase(gen.FixAll(prog))
+			c.Fuel = 12_000_000
+			c.NoHistory = true
+			judge(t, "long", c, true, "million-pass-loops")
+			n++
+		}
+	}
+	evid.Exhaustive("blocks nested 2..40 deep; loops of 255..70000 passes in 4 forms; loops of more than 2^20 passes", n)
 }
 
 func minInt(a, b int) int {
@@ -727,6 +743,48 @@ func TestForInPassScope(t *testing.T) {
 		_ = ii
 	}
 	evid.Exhaustive("iterable kind x body x where the loop variable comes from x point key of the body's name", n)
+}
+
+// TestIterableExpressions: the iterable of a for-in is an expression like any other: a concatenation, a variable, a
+// call result, an element, a slice - it is evaluated once, and the body runs for what it yields.
+func TestIterableExpressions(t *testing.T) {
+	iters := []func() *gen.Node{
+		func() *gen.Node { return gen.NBin("+", gen.NStr("ab"), gen.NStr("cd")) },
+		func() *gen.Node { return gen.NParen(gen.NBin("+", gen.NStr("ab"), gen.NStr("cd"))) },
+		func() *gen.Node { return gen.NBin("+", id("sa"), id("sb")) },
+		func() *gen.Node { return gen.NBin("+", id("_"), gen.NStr("!")) },
+		func() *gen.Node { return gen.NBin("+", gen.NBin("+", gen.NStr("a"), id("sa")), gen.NStr("z")) },
+		func() *gen.Node { return gen.NCall("pval", gen.NStr("xy")) },
+		func() *gen.Node { return gen.NIndex(id("ll"), gen.NInt(0)) },
+		func() *gen.Node { return gen.NSlice(id("sa"), gen.NInt(1), nil, nil, false) },
+		func() *gen.Node { return gen.NIndex(id("mm"), gen.NStr("k")) },
+		func() *gen.Node { return gen.NCall("load_json", gen.NStr("[1, \"two\"]")) },
+		func() *gen.Node { return gen.NBin("*", id("sa"), gen.NInt(2)) },
+		func() *gen.Node { return gen.NBin("-", gen.NInt(3), gen.NInt(1)) },
+		func() *gen.Node { return gen.NBin("==", id("sa"), id("sb")) },
+	}
+	n := 0
+	for ii, it := range iters {
+		for place := 0; place < 3; place++ {
+			pre := []*gen.Node{gen.NSet("sa", gen.NStr("pq")), gen.NSet("sb", gen.NStr("r")), gen.NSet("ll", gen.NList(gen.NList(gen.NInt(7), gen.NInt(8)), gen.NInt(9))), gen.NSet("mm", gen.NMap(gen.NStr("k"), gen.NStr("uv")))}
+			loop := gen.NForIn("c", it(), []*gen.Node{gen.NCall("probe", gen.NStr("c"), id("c"))})
+			var prog []*gen.Node
+			switch place {
+			case 0:
+				prog = append(pre, loop, gen.NCall("probe", gen.NStr("after")))
+			case 1: // in a branch that is not taken: the script still loads
+				prog = append(pre, gen.NIf([]*gen.Node{gen.NBool(false)}, [][]*gen.Node{{loop}}, nil, false), gen.NCall("probe", gen.NStr("after")))
+			default:
+				prog = append(pre, gen.NForIn("o", gen.NList(gen.NInt(1), gen.NInt(2)), []*gen.Node{loop}), gen.NCall("probe", gen.NStr("after")))
+			}
+			c := sem.NewCase(gen.FixAll(prog))
+			c.Fields = map[string]any{"message": "msg"}
+			judge(t, "iterable-expr", c, true, "iterable-expression")
+			n++
+		}
+		_ = ii
+	}
+	evid.Exhaustive("iterable expression form x place of the loop", n)
 }
 
 // TestValuelessAssignment: `NAME = <expression without a value>` is an assignment like any other: NAME becomes (or
